@@ -6,6 +6,7 @@ package main
 
 import (
 	"fmt"
+	"go/token"
 	"go/constant"
 	"go/types"
 	"sort"
@@ -17,7 +18,7 @@ import (
 func init() {
 	register(&propDef{
 		id:      "C22",
-		explain: "Structural necessary conditions of 'compressed bodies decode to the original': (R1) every call of a function value produced by stackless.NewFunc has its 'queue full' bool result tested, and on the false outcome the wrapped function is run inline (or the bool is returned to a caller for which the same holds) - so work is never silently skipped under load; (R2) the body compressors (methods of Response that install a compressed body stream) agree on their guards, on resetting Content-Length for streams and on the epilogue, and each one's encoding token, one-shot compressor and stream compressor reach the same compression package, and none gives the buffer that holds the uncompressed body back to its pool before the one-shot compressor has read it; (R3) each is called only under a true HasAcceptEncodingBytes test of the token it stores; (R5) wherever a codec constructor's rejection of a compression level ends in a panic, the level has passed a normaliser whose every return lies in the codec's valid range (constants of the codec package), so no caller-supplied level crashes the process. (R6) a pooled codec goes back where it came from: at every call of a helper that puts its argument into a codec pool, the argument is the result of the helper that takes from the same pool global, released with the level it was acquired with - the pools share one interface type, so the compiler accepts a zstd encoder in the deflate pool. (R7) the helper that adds Accept-Encoding to Vary leaves the header alone only after a whole-member match over the comma-separated list (not a substring search). (R8) in each body compressor every path to the call that announces the encoding has stored the compressed stream or the compressed buffer into the response - no 'keep the original' path reaches the announcement. Not decided: decode(encode(x)) = x, the codecs themselves.",
+		explain: "Structural necessary conditions of 'compressed bodies decode to the original': (R1) every call of a function value produced by stackless.NewFunc has its 'queue full' bool result tested, and on the false outcome the wrapped function is run inline (or the bool is returned to a caller for which the same holds) - so work is never silently skipped under load; (R2) the body compressors (methods of Response that install a compressed body stream) agree on their guards, on resetting Content-Length for streams and on the epilogue, and each one's encoding token, one-shot compressor and stream compressor reach the same compression package, and none gives the buffer that holds the uncompressed body back to its pool before the one-shot compressor has read it; (R3) each is called only under a true HasAcceptEncodingBytes test of the token it stores; (R5) wherever a codec constructor's rejection of a compression level ends in a panic, the level has passed a normaliser whose every return lies in the codec's valid range (constants of the codec package), so no caller-supplied level crashes the process. (R6) a pooled codec goes back where it came from: at every call of a helper that puts its argument into a codec pool, the argument is the result of the helper that takes from the same pool global, released with the level it was acquired with - the pools share one interface type, so the compiler accepts a zstd encoder in the deflate pool. (R7) the helper that adds Accept-Encoding to Vary leaves the header alone only after a whole-member match over the comma-separated list (not a substring search). (R10) a brotli reader is returned to its pool only under a test that found the error of the read nil (its Reset keeps buffered input, so a reader that stopped early poisons the next stream); (R8) in each body compressor every path to the call that announces the encoding has stored the compressed stream or the compressed buffer into the response - no 'keep the original' path reaches the announcement. Not decided: decode(encode(x)) = x, the codecs themselves.",
 		run:     runC22,
 	})
 }
@@ -498,6 +499,7 @@ func runC22(p *Prog, r *Report) {
 	runC22PoolFamily(p, r)
 	runC22Vary(p, r)
 	runC22SyncEncoder(p, r)
+	runC22CleanReaderPooled(p, r)
 }
 
 // runC22Levels (R5): a compression level comes from the caller and may be
@@ -970,4 +972,50 @@ func runC22SyncEncoder(p *Prog, r *Report) {
 		})
 	}
 	r.Floor("R9", "zstd.NewWriter calls", n, 1)
+}
+
+// runC22CleanReaderPooled (R10): brotli.Reader.Reset does not drop the input a reader has buffered, so a reader that
+// stopped before the end of its stream (a size limit, a corrupt stream, a caller that wanted only the first bytes)
+// decodes the next stream it is given behind those leftovers. Every call that returns a brotli reader to its pool is
+// control-dependent on a test that found the error of the read nil.
+func runC22CleanReaderPooled(p *Prog, r *Report) {
+	rel := p.Func("releaseBrotliReader")
+	if rel == nil {
+		r.Undecided("R10", "releaseBrotliReader", "not found")
+		return
+	}
+	n := 0
+	for _, fn := range p.funcsIn("") {
+		allCalls(fn, func(b *ssa.BasicBlock, c ssa.CallInstruction) {
+			if c.Common().StaticCallee() != rel {
+				return
+			}
+			n++
+			clean := false
+			for _, g := range guardsOf(b) {
+				bo, ok := g.Cond.(*ssa.BinOp)
+				if !ok || !(bo.Op == token.EQL || bo.Op == token.NEQ) {
+					continue
+				}
+				if (isNilConst(bo.Y) && strings.HasSuffix(bo.X.Type().String(), "error")) || (isNilConst(bo.X) && strings.HasSuffix(bo.Y.Type().String(), "error")) {
+					ev := bo.X
+					if isNilConst(bo.X) {
+						ev = bo.Y
+					}
+					// the error of the read, not the one of taking the reader from the pool
+					if ex, ok := ev.(*ssa.Extract); ok {
+						if cl, ok := ex.Tuple.(*ssa.Call); ok && cl.Call.StaticCallee() != nil && strings.HasPrefix(cl.Call.StaticCallee().Name(), "acquire") {
+							continue
+						}
+					}
+					if (bo.Op == token.EQL) == g.Pol {
+						clean = true
+					}
+				}
+			}
+			r.Check("R10", funcName(fn)+": a brotli reader goes back to its pool only after its stream was read without an error", clean, p.Pos(c.Pos()),
+				"releaseBrotliReader is not under a test that found the read error nil: a reader stopped by the size limit (or by a corrupt stream) keeps its buffered input across Reset, and the next, unrelated brotli body fails to decode")
+		})
+	}
+	r.Floor("R10", "places that return a brotli reader to its pool", n, 1)
 }
